@@ -283,4 +283,10 @@ impl ProbabilisticStore {
     pub fn verif_len_capacity(&self) -> (usize, usize) {
         (self.data.len(), self.data.capacity())
     }
+
+    /// Verification hook: put the store into the state it has after `n` write operations
+    /// (only the operation counter; entries are untouched).
+    pub fn verif_set_operations_count(&mut self, n: u64) {
+        self.operations_count = n;
+    }
 }
